@@ -251,6 +251,37 @@ func runC43(c *core.Ctx) {
 			dec, _ = ci.(*ssa.Call)
 		}
 		if dec == nil {
+			// a same-package helper that merely forwards the decryption's two results stands for it
+			for _, ci := range ir.CallsThrough(fn, func(ci ssa.CallInstruction) bool {
+				o := ir.CalleeObj(ci)
+				return o != nil && o.Name() == "DecryptWithCustomScrypt"
+			}, 1) {
+				cl, isCl := ci.(*ssa.Call)
+				if !isCl {
+					continue
+				}
+				h := cl.Common().StaticCallee()
+				if h == nil || h.Pkg != fn.Pkg || h.Signature.Results().Len() != 2 {
+					continue
+				}
+				forwards := true
+				for _, hb := range h.Blocks {
+					ret, isRet := hb.Instrs[len(hb.Instrs)-1].(*ssa.Return)
+					if !isRet {
+						continue
+					}
+					d0, i0 := ir.CallOf(ret.Results[0])
+					d1, i1 := ir.CallOf(ret.Results[1])
+					if d0 == nil || d0 != d1 || i0 != 0 || i1 != 1 || ir.CalleeObj(d0) == nil || ir.CalleeObj(d0).Name() != "DecryptWithCustomScrypt" {
+						forwards = false
+					}
+				}
+				if forwards {
+					dec = cl
+				}
+			}
+		}
+		if dec == nil {
 			c.Broken("C43.load", fn, "DecryptWithCustomScrypt call", c.P.Rel(fn.Pos()), "not found")
 			continue
 		}
